@@ -39,6 +39,11 @@ def run(ctx):
     check_nullish_tables(ctx, 'R5')
     from . import c03 as _c03
     _c03.check_duration_figure(ctx, 'R3')       # a figure rewritten on import is rewritten again by the next import
+    # what the listener captures of a note / rest is what the exporter writes: a component that is dropped, invented (a stale pitch
+    # added to a rest) or filed under another category changes the text, and the changed text is read differently the second time
+    ctx.alias = {'R2': 'R9'}
+    _c03.r2_components(ctx, g, _c03.listener_handlers(ctx))
+    ctx.alias = {}
     # every token reaches the text through the tokenizer of the requested encoding (no raw-text bypass): canonical order and
     # de-duplication are properties of that path
     from . import c04
